@@ -22,6 +22,7 @@ type PropSpec struct {
 	Notes     []string `json:"notes"`     // clauses of the property that are not covered (assumptions / paper steps)
 	Bounded   []BoundedSpec `json:"bounded"`
 	Structural []string `json:"structural"` // names of structural checks (Go-coded)
+	TimeoutS   int      `json:"timeout_s"`  // per-obligation solver budget of the quick tier (default 20 s)
 }
 
 type BoundedSpec struct {
@@ -121,7 +122,10 @@ func cmdCheck(args []string) int {
 		return 1
 	}
 	cfg := SolverCfg{TimeoutS: 20, OutDir: smtDir, Jobs: 16}
-	if tier == "thorough" {
+	if spec.TimeoutS > cfg.TimeoutS {
+		cfg.TimeoutS = spec.TimeoutS // properties whose lemmas need more than the default first-pass budget
+	}
+	if tier == "thorough" && cfg.TimeoutS < 90 {
 		cfg.TimeoutS = 90
 	}
 	var results []*FuncResult
